@@ -839,7 +839,10 @@ pub fn gen(thorough: bool, seed: u64, w: &mut dyn Write, gc: GenCfg) {
                 85..=94 => {
                     if many_events && g.r.chance(1, 3) { g.burst() } else if g.gc.with_db && !g.deadbands.is_empty() && g.r.chance(1, 3) { g.drift() } else if g.gc.with_db { g.txn() } else { g.request() }
                 }
-                95 => g.line("cut"),
+                95 => {
+                    let l = if g.r.chance(1, 3) { "disable" } else { "cut" };
+                    g.line(l)
+                }
                 96 => {
                     if g.gc.with_db { g.line("cut") } else { g.select_script() }
                 }
